@@ -440,6 +440,8 @@ def option_method(ex, fr, name, args, dty):
         it = int_type(dty)
         if it is not None:
             return IntV(0, type_head(dty) if "::" in dty else dty)
+        if dty.strip() == "bool":
+            return BoolV(False)
         raise Unsupported("unwrap_or_default of " + dty)
     if name == "map_or":
         return ex.call_value(fr, args[2], [p], dty) if some else args[1]
@@ -495,6 +497,8 @@ def result_method(ex, fr, name, args, dty):
         it = int_type(dty)
         if it is not None:
             return IntV(0, type_head(dty) if "::" in dty else dty)
+        if dty.strip() == "bool":
+            return BoolV(False)
         raise Unsupported("unwrap_or_default of " + dty)
     return NOT_BUILTIN
 
